@@ -2,6 +2,7 @@
 //! Usage: vmon <PROPERTY-ID> [--seed N] [--tier quick|thorough] [--out FILE] [--replay FILE]
 
 mod common;
+mod crashmon;
 mod robust;
 mod storemon;
 mod structmon;
@@ -23,10 +24,18 @@ fn main() {
         robust::codec::worker(&argv[1], &argv[2]);
         return;
     }
+    if id == "crash-show" {
+        crashmon::show(argv[1].parse().unwrap(), argv[2].parse().unwrap());
+        return;
+    }
     let args = Args::parse(&argv[1..]);
     // keep panics of the system under test out of the terminal; they are observations
     std::panic::set_hook(Box::new(|_| {}));
     let rep: Report = match id.as_str() {
+        "C01" => crashmon::main("C01", &args),
+        "C02" => crashmon::main("C02", &args),
+        "C08" => crashmon::faults::main(&args),
+        "C17" => crashmon::tails::main(&args),
         "C04" => storemon::main(storemon::Kind::C04, &args),
         "C05" => storemon::main(storemon::Kind::C05, &args),
         "C06" => storemon::main(storemon::Kind::C06, &args),
